@@ -136,8 +136,12 @@ def _walk(evs, held, conds, stores):
     for e in evs:
         if e.kind == "cond":
             conds.append((e.cls, e.obj, e.text, bool(e.extra.get("truth"))))
-        if e.kind == "store" and e.extra.get("recv") == "self" and e.extra.get("value") in ("True", "False", "None"):
-            stores[(e.cls, e.obj, e.extra.get("attr"))] = e.extra.get("value")
+        if e.kind == "store" and e.extra.get("recv") == "self":
+            v_ = e.extra.get("value") or ""
+            if v_ in ("True", "False", "None") or re.fullmatch(r"_?[A-Z][A-Z0-9_]*", v_):  # a boolean, or a named state (module-level constant)
+                stores[(e.cls, e.obj, e.extra.get("attr"))] = v_
+            else:
+                stores.pop((e.cls, e.obj, e.extra.get("attr")), None)  # overwritten by something that is not a constant
         yield e, dict(held), list(conds), dict(stores)
         if e.kind == "acquire":
             k = e.extra.get("_canon")
@@ -203,6 +207,7 @@ def consistent(site_conds, site_stores, stop_path: Path) -> bool:
     """Is this stop path possible in a state in which the thread can be blocked at the site?  Only (class, attribute) facts
     are compared: `X is None` against the truthiness of X, and constant stores that dominate the site against tests of it."""
     facts: dict[tuple, bool] = {}  # (cls, attr) -> truthy?
+    values: dict[tuple, str] = {}  # (cls, attr) -> the constant last stored before the site (a boolean, or a named state)
     for cls, obj, text, truth in site_conds:
         m = re.fullmatch(r"self\.(_\w+) is None", text)
         if m:
@@ -211,17 +216,28 @@ def consistent(site_conds, site_stores, stop_path: Path) -> bool:
         if m:
             facts[(cls, m.group(1))] = truth
     for (cls, obj, attr), v in site_stores.items():
-        facts[(cls, attr)] = v == "True"
+        values[(cls, attr)] = v
+        if v in ("True", "False", "None"):
+            facts[(cls, attr)] = v == "True"
     for e in stop_path.flat():
         if e.kind != "cond":
             continue
         m = re.fullmatch(r"self\.(_\w+)( is None)?", e.text)
-        if not m:
+        if m:
+            key = (e.cls, m.group(1))
+            if key in facts:
+                truthy = (not e.extra.get("truth")) if m.group(2) else bool(e.extra.get("truth"))
+                if truthy != facts[key]:
+                    return False
             continue
-        key = (e.cls, m.group(1))
-        if key in facts:
-            truthy = (not e.extra.get("truth")) if m.group(2) else bool(e.extra.get("truth"))
-            if truthy != facts[key]:
+        # a life-cycle field compared with named states: the stop path must agree with the state stored before the site
+        meq = re.fullmatch(r"self\.(_\w+) == (\w+)", e.text)
+        min_ = re.fullmatch(r"self\.(_\w+) in [\(\[\{](.+?),?[\)\]\}]", e.text)
+        if meq and (e.cls, meq.group(1)) in values:
+            if (values[(e.cls, meq.group(1))] == meq.group(2)) != bool(e.extra.get("truth")):
+                return False
+        elif min_ and (e.cls, min_.group(1)) in values:
+            if (values[(e.cls, min_.group(1))] in [x.strip() for x in min_.group(2).split(",")]) != bool(e.extra.get("truth")):
                 return False
     return True
 
@@ -604,9 +620,23 @@ def run(ctx) -> None:
         ok = True
         for p in ps:
             acts = [e for e in p.evs if e.kind == "call" and e.extra.get("func") in ("os.write", "os.close", "inotify_rm_watch", "self._close_resources")]
-            closed = p.conds().get("self._closed")
-            sets = any(e.kind == "store" and e.extra.get("attr") == "_closed" and e.extra.get("value") == "True" for e in p.evs)
-            if acts and not (closed is False and sets):
+            if not acts:
+                continue
+            # test-and-set on the protocol's state: the path has tested a state field and found "no release requested yet", and it
+            # stores a value under which that same test fails the next time (a boolean flag, or a life-cycle field with named states)
+            good = False
+            stores = [(e.extra.get("attr"), e.extra.get("value")) for e in p.flat() if e.kind == "store" and e.extra.get("recv") == "self"]
+            for a_, t_ in p.conds().items():
+                m = re.fullmatch(r"self\.(_\w+)", a_)
+                meq = re.fullmatch(r"self\.(_\w+) == (\w+)", a_)
+                min_ = re.fullmatch(r"self\.(_\w+) in [\(\[\{](.+?),?[\)\]\}]", a_)
+                if m and t_ is False and (m.group(1), "True") in stores:
+                    good = True
+                elif meq and t_ is False and (meq.group(1), meq.group(2)) in stores:
+                    good = True
+                elif min_ and t_ is False and any((min_.group(1), x.strip()) in stores for x in min_.group(2).split(",")):
+                    good = True
+            if not good:
                 ok = False
         ctx.check(ok, RI, "Inotify.close", "release actions run without the closed test-and-set: a second close() writes to / closes descriptors again", f2.loc)
     ctx.assumptions += [
